@@ -346,3 +346,191 @@ func H_C18_typed() {
 		verif.Assert(strings.Contains(uj.Error(), "doc.json") || strings.Contains(uj.Error(), "conf_doc.json"), "C18/WithFile: the error about a setting mentions the file (json)")
 	}
 }
+
+// integers at and beyond the edges of int64 / uint64 that float64 represents exactly, so that the
+// JSON decoders (float64 for every number) and the YAML decoder (int, uint64 above MaxInt64, float64
+// above MaxUint64) describe the same number
+var c18Big = []struct {
+	txt string
+	y   interface{}
+	j   float64
+}{
+	{"9223372036854775808", uint64(1 << 63), 9223372036854775808.0},
+	{"4611686018427387904", int(1 << 62), 4611686018427387904.0},
+	{"-9223372036854775808", int(-1 << 63), -9223372036854775808.0},
+	{"18446744073709551616", 18446744073709551616.0, 18446744073709551616.0},
+	{"9007199254740992", int(1 << 53), 9007199254740992.0},
+	{"2147483648", int(1 << 31), 2147483648.0},
+}
+
+// H_C18_big: numbers at the edges of the integer types into every kind of numeric target.
+func H_C18_big() {
+	e := c18Big[verif.Choice("number", len(c18Big))]
+	text := verif.TextBytes(`{"n": ` + e.txt + `}`)
+	verif.DecoderResult("yaml", map[interface{}]interface{}{"n": e.y})
+	verif.DecoderResult("json", map[string]interface{}{"n": e.j})
+	verif.DecoderResult("hjson", map[string]interface{}{"n": e.j})
+	cy, ey := yaml.NewConfig(text)
+	cj, ej := json.NewConfig(text)
+	ch, eh := hjson.NewConfig(text)
+	verif.Assert(ey == nil && ej == nil && eh == nil, "C18/big: documents load")
+	if ey != nil || ej != nil || eh != nil {
+		return
+	}
+	target := verif.Choice("target", 6)
+	unpack := func(c *ucfg.Config) (float64, string, error) {
+		switch target {
+		case 0:
+			var t struct{ N int64 `config:"n"` }
+			err := c.Unpack(&t)
+			return float64(t.N), strconv.FormatInt(t.N, 10), err
+		case 1:
+			var t struct{ N uint64 `config:"n"` }
+			err := c.Unpack(&t)
+			return float64(t.N), strconv.FormatUint(t.N, 10), err
+		case 2:
+			var t struct{ N int32 `config:"n"` }
+			err := c.Unpack(&t)
+			return float64(t.N), strconv.FormatInt(int64(t.N), 10), err
+		case 3:
+			var t struct{ N float64 `config:"n"` }
+			err := c.Unpack(&t)
+			return t.N, "", err
+		case 4:
+			var t struct{ N uint32 `config:"n"` }
+			err := c.Unpack(&t)
+			return float64(t.N), strconv.FormatUint(uint64(t.N), 10), err
+		default:
+			var t struct{ N interface{} `config:"n"` }
+			err := c.Unpack(&t)
+			switch x := t.N.(type) {
+			case int64:
+				return float64(x), "", err
+			case uint64:
+				return float64(x), "", err
+			case float64:
+				return x, "", err
+			}
+			return -1, "?", err
+		}
+	}
+	fy, sy, uy := unpack(cy)
+	fj, sj, uj := unpack(cj)
+	fh, sh, uh := unpack(ch)
+	verif.Reach("big number compared")
+	verif.Assert((uy == nil) == (uj == nil) && (uj == nil) == (uh == nil), "C18/big: typed unpack succeeds or fails alike/target="+itoa(target))
+	if uy == nil && uj == nil && uh == nil {
+		verif.Assert(fy == fj && fj == fh && sy == sj && sj == sh, "C18/big: the three front-ends deliver the same number/target="+itoa(target))
+		verif.Assert(fy == e.j, "C18/big: the number delivered is the document's number/target="+itoa(target))
+	}
+}
+
+type c18TLS struct {
+	Cert string `config:"cert"`
+	Key  string `config:"key"`
+}
+type c18TLSReq struct {
+	Cert string `config:"cert"`
+	Key  string `config:"key" validate:"required"`
+}
+type c18TLSInt struct {
+	Cert int `config:"cert"`
+}
+
+// H_C18_file: the *WithFile loaders with a path separator: errors about a setting mention the file,
+// whichever way the document spells the setting (nested objects, one dotted key, dotted keys with
+// several separators) and whether the error concerns a leaf or an object that only exists as an
+// intermediate node of a dotted key; the data equals the in-memory loader's.
+func H_C18_file() {
+	opts := []ucfg.Option{ucfg.PathSep(".")}
+	port := verif.Int64("port")
+	verif.Assume(verif.And(port >= 0, port < 65536))
+	var ys, js interface{}
+	var text string
+	ptxt := strconv.FormatInt(port, 10)
+	switch verif.Choice("spelling", 4) {
+	case 0:
+		text = `{"server": {"tls": {"cert": "c.pem"}, "port": ` + ptxt + `}}`
+		ys = map[interface{}]interface{}{"server": map[interface{}]interface{}{"tls": map[interface{}]interface{}{"cert": "c.pem"}, "port": int(port)}}
+		js = map[string]interface{}{"server": map[string]interface{}{"tls": map[string]interface{}{"cert": "c.pem"}, "port": float64(port)}}
+	case 1:
+		text = `{"server": {"tls.cert": "c.pem", "port": ` + ptxt + `}}`
+		ys = map[interface{}]interface{}{"server": map[interface{}]interface{}{"tls.cert": "c.pem", "port": int(port)}}
+		js = map[string]interface{}{"server": map[string]interface{}{"tls.cert": "c.pem", "port": float64(port)}}
+	case 2:
+		// (no other key below server: both intermediate objects are created for this one key)
+		text = `{"server.tls.cert": "c.pem", "port": ` + ptxt + `}`
+		ys = map[interface{}]interface{}{"server.tls.cert": "c.pem", "port": int(port)}
+		js = map[string]interface{}{"server.tls.cert": "c.pem", "port": float64(port)}
+	case 3:
+		text = `{"server.tls": {"cert": "c.pem"}, "server.port": ` + ptxt + `}`
+		ys = map[interface{}]interface{}{"server.tls": map[interface{}]interface{}{"cert": "c.pem"}, "server.port": int(port)}
+		js = map[string]interface{}{"server.tls": map[string]interface{}{"cert": "c.pem"}, "server.port": float64(port)}
+	}
+	verif.DecoderResult("yaml", ys)
+	verif.DecoderResult("json", js)
+	verif.DecoderResult("hjson", js)
+	fe := verif.Choice("front-end", 3)
+	var c, mem *ucfg.Config
+	var err, merr error
+	var path string
+	switch fe {
+	case 0:
+		path = verif.VirtualFile("conf/srv.yml", text)
+		c, err = yaml.NewConfigWithFile(path, opts...)
+		mem, merr = yaml.NewConfig(verif.TextBytes(text), opts...)
+	case 1:
+		path = verif.VirtualFile("conf/srv.json", text)
+		c, err = json.NewConfigWithFile(path, opts...)
+		mem, merr = json.NewConfig(verif.TextBytes(text), opts...)
+	case 2:
+		path = verif.VirtualFile("conf/srv.hjson", text)
+		c, err = hjson.NewConfigWithFile(path, opts...)
+		mem, merr = hjson.NewConfig(verif.TextBytes(text), opts...)
+	}
+	verif.Assert(err == nil && merr == nil, "C18/file: document loads")
+	if err != nil || merr != nil {
+		return
+	}
+	var m1, m2 map[string]interface{}
+	e1, e2 := c.Unpack(&m1, opts...), mem.Unpack(&m2, opts...)
+	verif.Assert(e1 == nil && e2 == nil && eqNumTree(m1, m2), "C18/file: WithFile loader yields the same data as the in-memory loader")
+	var uerr error
+	fault := verif.Choice("fault", 4)
+	switch fault {
+	case 0: // an object where a number is required
+		var t struct {
+			Server struct {
+				TLS  int `config:"tls"`
+				Port int `config:"port"`
+			} `config:"server"`
+		}
+		uerr = c.Unpack(&t, opts...)
+	case 1: // a required setting missing inside the object
+		var t struct {
+			Server struct {
+				TLS  c18TLSReq `config:"tls"`
+				Port int       `config:"port"`
+			} `config:"server"`
+		}
+		uerr = c.Unpack(&t, opts...)
+	case 2: // a leaf of the wrong type
+		var t struct {
+			Server struct {
+				TLS  c18TLSInt `config:"tls"`
+				Port int       `config:"port"`
+			} `config:"server"`
+		}
+		uerr = c.Unpack(&t, opts...)
+	case 3: // the outer object where a number is required
+		var t struct {
+			Server int `config:"server"`
+		}
+		uerr = c.Unpack(&t, opts...)
+	}
+	verif.Reach("file error checked")
+	verif.Assert(uerr != nil, "C18/file: the faulty target is refused")
+	if uerr != nil {
+		verif.Assert(strings.Contains(uerr.Error(), path), "C18/file: the error about a setting mentions the file/fault="+itoa(fault))
+	}
+}
